@@ -291,7 +291,9 @@ CODES = {1: 'the model rejects the recorded schedule (a label was not enabled: e
          4: 'the model\'s linearisation events differ from the stamped ones (time, key, or the set of deleted keys)',
          5: 'an observed outcome (handler calls, acks, inner Publish, return value) differs from mw_run / dec_run',
          6: 'the number of IsDuplicate calls of a thread does not fit what the model expects', 7: 'thread counts differ',
-         8: 'Len() of the repository at the end differs from the model\'s map'}
+         8: 'Len() of the repository at the end differs from the model\'s map',
+         9: 'Clients.compile differs from the program of IsDuplicate calls the replay expects',
+         10: 'the messages given to the handler / inner publisher differ from Clients.delivered on the observed answers'}
 
 def check_conc(pid, name, cases, res):
     mapped = []
